@@ -20,9 +20,11 @@ func hRecv11(i uint32) *pb.Receiver {
 
 // VerifC11_NflogCrash: as VerifC11_SilenceCrash for the notification log: after a
 // crash or power loss at any point of a maintenance snapshot the next start loads
-// exactly the previous log or exactly the new one and is never refused.
+// exactly the previous log or exactly the new one and is never refused. The thorough
+// tier runs two rounds back to back (crash, restart, crash again).
 //
-//vf:bounds unwind=24 decisions=300 preempt=0
+//vf:quick unwind=24 decisions=300 preempt=0
+//vf:thorough unwind=24 decisions=600 preempt=0 paths=2000000
 //vf:nonative uses the engine's crash-consistent file-system model
 //vf:expect reach=old-state reach=new-state reach=crashed reach=completed
 func VerifC11_NflogCrash() {
@@ -36,56 +38,63 @@ func VerifC11_NflogCrash() {
 	vfAssert("snapshot-ok", err == nil)
 	vfFSPut("data/nflog", buf.Bytes())
 
-	l, err := hNew11("data/nflog")
-	vfAssert("start-from-own-snapshot", err == nil && len(l.st) == 1)
-	vfAdvance(time.Minute)
-	vfAssert("log-ok", l.Log(hRecv11(0), "g2", []uint64{2}, []uint64{3}, nil, 0) == nil)
-	updateFirst := vfBool("updateFirst")
-	if updateFirst {
-		vfAssert("log-ok", l.Log(hRecv11(0), "g1", []uint64{1, 4}, nil, nil, 0) == nil)
-	}
-	k := vfChoice("crashBeforeOp", 8)
-	if k < 7 {
-		vfCrashAt(k)
-	}
-	func() {
-		defer func() { recover() }()
-		stopc := make(chan struct{})
-		close(stopc)
-		l.Maintenance(time.Hour, "data/nflog", stopc, nil)
-	}()
-	crashed := vfCrashed()
-	if crashed {
-		vfReach("crashed")
-	} else {
-		vfReach("completed")
-		if vfBool("powerLossAfterwards") {
-			vfPowerLoss()
-			crashed = true
-		}
-	}
-	vfCrashRecover()
-
-	l2, err := hNew11("data/nflog")
-	vfAssert("restart-never-refused-by-own-file", err == nil)
-	e1, has1 := l2.st[stateKey("g1", hRecv11(0))]
-	_, has2 := l2.st[stateKey("g2", hRecv11(0))]
-	isOld := has1 && !has2 && len(l2.st) == 1
-	isNew := has1 && has2 && len(l2.st) == 2
-	vfAssert("exactly-old-or-exactly-new-state", isOld || isNew)
-	if !crashed {
-		vfAssert("completed-snapshot-is-loaded", isNew)
-	}
-	if isNew {
-		vfReach("new-state")
+	// 1 (quick) / 2 (thorough) rounds of: run, log a notification for a new group
+	// (optionally update the first group's entry), snapshot killed anywhere, restart
+	nOld := 1
+	firstLen := 1
+	for round := 0; round <= vfTier(); round++ {
+		l, err := hNew11("data/nflog")
+		vfAssert("start-from-own-snapshot", err == nil && len(l.st) == nOld)
+		vfAdvance(time.Minute)
+		gk := []string{"g2", "g3"}[round]
+		vfAssert("log-ok", l.Log(hRecv11(0), gk, []uint64{2}, []uint64{3}, nil, 0) == nil)
+		updateFirst := vfBool("updateFirst")
+		newFirstLen := firstLen
 		if updateFirst {
-			vfAssert("new-state-content", len(e1.Entry.FiringAlerts) == 2)
-		} else {
-			vfAssert("new-state-content", len(e1.Entry.FiringAlerts) == 1)
+			newFirstLen = firstLen + 1
+			fa := []uint64{1, 4, 5}[:newFirstLen]
+			vfAssert("log-ok", l.Log(hRecv11(0), "g1", fa, nil, nil, 0) == nil)
 		}
-	} else {
-		vfReach("old-state")
-		vfAssert("old-state-content", len(e1.Entry.FiringAlerts) == 1)
+		k := vfChoice("crashBeforeOp", 8)
+		if k < 7 {
+			vfCrashAt(k)
+		}
+		func() {
+			defer func() { recover() }()
+			stopc := make(chan struct{})
+			close(stopc)
+			l.Maintenance(time.Hour, "data/nflog", stopc, nil)
+		}()
+		crashed := vfCrashed()
+		if crashed {
+			vfReach("crashed")
+		} else {
+			vfReach("completed")
+			if vfBool("powerLossAfterwards") {
+				vfPowerLoss()
+				crashed = true
+			}
+		}
+		vfCrashRecover()
+
+		l2, err := hNew11("data/nflog")
+		vfAssert("restart-never-refused-by-own-file", err == nil)
+		e1, has1 := l2.st[stateKey("g1", hRecv11(0))]
+		_, hasNew := l2.st[stateKey(gk, hRecv11(0))]
+		isOld := has1 && !hasNew && len(l2.st) == nOld
+		isNew := has1 && hasNew && len(l2.st) == nOld+1
+		vfAssert("exactly-old-or-exactly-new-state", isOld || isNew)
+		if !crashed {
+			vfAssert("completed-snapshot-is-loaded", isNew)
+		}
+		if isNew {
+			vfReach("new-state")
+			vfAssert("new-state-content", len(e1.Entry.FiringAlerts) == newFirstLen)
+			nOld, firstLen = nOld+1, newFirstLen
+		} else {
+			vfReach("old-state")
+			vfAssert("old-state-content", len(e1.Entry.FiringAlerts) == firstLen)
+		}
 	}
 }
 
